@@ -336,3 +336,31 @@ pub mod c11 {
         unsafe { peaks.transmute_into_vec() }
     }
 }
+
+pub mod c06 {
+    pub fn unwraps(s: &str) -> i32 {
+        s.parse::<i32>().unwrap()
+    }
+
+    pub fn panics(x: u32) -> u32 {
+        if x > 3 {
+            panic!("too large");
+        }
+        x
+    }
+
+    pub fn raw_unbounded(s: &str) -> Result<f64, std::num::ParseFloatError> {
+        let v = s.trim().parse::<f64>()?;
+        Ok(v * 2.0)
+    }
+
+    pub fn raw_bounded(s: &str) -> Result<f64, ()> {
+        let v = s.trim().parse::<f64>().map_err(|_| ())?;
+        if v < -1000.0 {
+            return Err(());
+        } else if v > 1000.0 {
+            return Err(());
+        }
+        Ok(v.abs())
+    }
+}
